@@ -297,9 +297,11 @@ def _api_potential_cases():
     return [("laplace", None), ("helmholtz", 1.7), ("helmholtz", 1.1 + 0.6j), ("helmholtz", 1.3j), ("helmholtz", -0.4j), ("modified_helmholtz", 0.9)]
 
 
-def replay_api_potential(order):
+def replay_api_potential(order, offset=None):
     """Potential operators created through the public factories, with an explicit parameter object of regular order `order` (different from the global
-    default 4), against an independent numpy sum of the closed-form kernel over the points of triangle_gauss.rule(order)."""
+    default 4), against an independent numpy sum of the closed-form kernel over the points of triangle_gauss.rule(order).  With `offset` the grid and the
+    evaluation points are translated by it ("for all grids": map-style coordinates; the kernels depend on x - y only, so the values agree to rounding of
+    x - y, not of |x|^2)."""
     import importlib
     import warnings
 
@@ -311,6 +313,15 @@ def replay_api_potential(order):
     g = Z.grid_with_domains("octa")
     par = Z.params(order, 2)
     pts = np.array([[2.1, -0.3, 0.4], [0.2, 2.4, -1.9], [0.5, 0.3, 2.2]])
+    tol = 1e-11
+    if offset is not None:
+        from vlib import symgrid as SG
+
+        off = np.asarray(offset, dtype=float).reshape(3, 1)
+        g = SG.make_grid(g.vertices + off, g.elements, g.domain_indices)
+        # also points close to the surface (0.05 .. 0.5 away from the face centres)
+        pts = np.hstack([pts, (g.centroids[:3] - off.T).T * np.array([1.1, 1.4, 2.0])]) + off
+        tol = 1e-10
     q, w = rule(order)
     rng = np.random.RandomState(3)
     bad, worst = {}, 0.0
@@ -337,7 +348,7 @@ def replay_api_potential(order):
                     ref[i] += g.integration_elements[E] * np.sum(w * G * dens)
             e = float(np.abs(val - ref).max() / np.abs(ref).max())
             worst = max(worst, e)
-            if e > 1e-11:
+            if e > tol:
                 bad["%s.%s k=%s order=%d" % (fam, layer, k, order)] = e
     # potentials built by arithmetic from the factory-made ones (combined-layer potential D - i eta S, rescaled and negated operators): the same linear combination of the
     # values verified above
@@ -414,11 +425,12 @@ def ob_maxwell_space_kinds():
     return held("RWG / BC accepted (BC == its barycentric RWG expansion), SNC / RBC rejected with ValueError")
 
 
-def ob_api_potential(order):
-    r = replay_api_potential(order)
+def ob_api_potential(order, offset=None):
+    r = replay_api_potential(order, offset)
     if r["violates"]:
-        return violated("potential operator created by the public factory differs from the closed-form kernel sum over the order-%d quadrature points: %s" % (order, r["failing"]),
-                        witness=r["failing"], signature="api-potential", replay={"callable": "checks.c08:replay_api_potential", "kwargs": {"order": order}, "confirmed": True})
+        return violated("potential operator created by the public factory differs from the closed-form kernel sum over the order-%d quadrature points%s: %s" % (
+            order, "" if offset is None else " (grid and points translated by %s)" % (list(offset),), r["failing"]),
+                        witness=r["failing"], signature="api-potential", replay={"callable": "checks.c08:replay_api_potential", "kwargs": {"order": order, "offset": None if offset is None else list(offset)}, "confirmed": True})
     return held("12 factory-made potentials (real, complex and +/- imaginary k) equal the kernel sum to %.1e at order %d" % (r["worst"], order))
 
 
@@ -466,6 +478,7 @@ def main():
     run.add("maxwell.finite-differences", "bounded", ob_maxwell_fd)
     for order in (2, 7):
         run.add("api-potential==kernel-sum[order %d]" % order, "bounded", ob_api_potential, order)
+    run.add("api-potential==kernel-sum[order 5, grid and points translated by (3000, -2000, 1000)]", "bounded", ob_api_potential, 5, (3000.0, -2000.0, 1000.0))
     run.add("maxwell-potential.space-kinds", "bounded", ob_maxwell_space_kinds)
     run.bound("potential / Maxwell assembler contracts: <= 4 elements, 2 quadrature points, 2 evaluation points, generic values")
     run.bound("far-field limit: octahedron, r = 1e3, 1e4, k = 1.3 and 1.1+0.002i, three directions")
